@@ -53,7 +53,15 @@ Inductive case :=
 | CESBlend (alpha : float) (i1 i2 : find) (evs : stream float) (o : outcome)
 | CGauss (mu sigma : fbnd) (indpb : float) (i : find) (evs : stream float) (o : outcome)
 | CPoly (eta : float) (low up : fbnd) (indpb : float) (i : find) (evs : stream float) (o : outcome)
-| CESLog (c indpb : float) (i : find) (evs : stream float) (o : outcome).
+| CESLog (c indpb : float) (i : find) (evs : stream float) (o : outcome)
+(* the same individual object passed as both parents: at every locus both children are written into
+   the same slot, the second write (child 2) is what remains; [o] is that one object *)
+| CBlendA (alpha : float) (i : find) (evs : stream float) (o : outcome)
+| CSbxA (eta : float) (i : find) (evs : stream float) (o : outcome)
+| CSbxBA (eta : float) (low up : fbnd) (i : find) (evs : stream float) (o : outcome)
+| CESBlendA (alpha : float) (i : find) (evs : stream float) (o : outcome).
+
+Definition out_snd (p : indiv (T:=float) * indiv (T:=float)) : outcome := out1 (snd p).
 
 Definition agree (m : option outcome) (o : outcome) : bool :=
   match m with Some o' => outcome_eqb o' o | None => false end.
@@ -67,4 +75,8 @@ Definition check (c : case) : bool :=
   | CGauss mu sigma indpb i evs o => agree (finish (op_gaussian FOps mu sigma indpb i evs) out1) o
   | CPoly eta low up indpb i evs o => agree (finish (op_poly FOps eta low up indpb i evs) out1) o
   | CESLog c indpb i evs o => agree (finish (op_es_lognormal FOps c indpb i evs) out1) o
+  | CBlendA alpha i evs o => agree (finish (op_blend FOps alpha i i evs) out_snd) o
+  | CSbxA eta i evs o => agree (finish (op_sbx FOps eta i i evs) out_snd) o
+  | CSbxBA eta low up i evs o => agree (finish (op_sbx_bounded FOps eta low up i i evs) out_snd) o
+  | CESBlendA alpha i evs o => agree (finish (op_es_blend FOps alpha i i evs) out_snd) o
   end.
